@@ -291,7 +291,7 @@ func (x *Exec) leavesOf(v Value, path string, out *[]struct {
 		if v.Sym != nil {
 			add(path, v.Sym)
 		} else {
-			add(path, IntLit(1))
+			add(path, x.closureID(v))
 		}
 	case OpaqueV:
 		add(path, v.T)
@@ -470,6 +470,12 @@ func (st *State) assumeRaw(c *Term) {
 	}
 	if c.Op == "false" {
 		st.dead = true
+	}
+	// cheap de-duplication against recent facts
+	for i := len(st.pc) - 1; i >= 0 && i >= len(st.pc)-24; i-- {
+		if st.pc[i] == c || (termSize(c) < 40 && termEqualSyntactic(st.pc[i], c)) {
+			return
+		}
 	}
 	st.pc = append(st.pc, c)
 }
